@@ -25,7 +25,7 @@ CLAIMS = {
     'C11': ('5.C11 / 10.5', 'compile-time Sendable table for 29 types x 3 roles against the run-time role rule; public send() per (role, packet kind) with connection version (3), status (3), need_store and offline_publish symbolic = 36 cells per harness against the MQTT send rules, refused sends must leave the state (incl. inbound exchanges) unchanged. Quick = const table + 2 harnesses; thorough = 20 of the 93 generated harnesses (those decided on the final tree, DESIGN 10.5); the other 73 (among them every PUBLISH cell) are outside the claim.'),
     'C12': ('5.C12 / 10.5', 'vacancy arithmetic for all maxima and counters (saturating, never wraps) + ' + STEP + '. Quick: application PUBREC frees the inbound slot exactly for error codes. Thorough: PUBACK / PUBCOMP (and whichever of PUBREC / send-at-the-limit / erase_stored_publish were decided, see DESIGN 10.5) with Receive Maximum M at full width. Retransmission counting on resume and the inbound limit are written but outside the claim (did not fit).'),
     'C13': ('5.C13 / 10.5', 'receive-side alias table kernel (all maxima / aliases), sender table clear(), automatic mapping under a size limit (new mapping sends topic + alias), tables dropped on close, server-side table only for Topic Alias Maximum > 0 (thorough). The sender-side manual / replacement steps against a receiver model are written but did not fit (outside the claim). ' + STEP),
-    'C14': ('5.C14 / 10.5', 'size kernel for all Remaining Lengths + ' + STEP + '. PUBACK under every limit, automatically mapped PUBLISH under limits around its size (known finding KF1), inbound frame around the local limit (DISCONNECT 0x95, close, not delivered). The send_stored() filter (oversize stored PUBLISH / PUBREL dropped and released) is written in three forms, none of which is decided here (50 min / 20 GB): outside the claim, and the seeded change C14_a in that function is not reported.'),
+    'C14': ('5.C14 / 10.5', 'size kernel for all Remaining Lengths + ' + STEP + '. PUBACK under every limit, automatically mapped PUBLISH under limits around its size (known finding KF1), inbound frame around the local limit (DISCONNECT 0x95, close, not delivered); thorough: a QoS1 PUBLISH refused as too large releases its id (17 min, 14 GB). The send_stored() filter (oversize stored PUBLISH / PUBREL dropped and released) is written in three forms, none of which is decided here (50 min / 20 GB): outside the claim, and the seeded change C14_a in that function is not reported.'),
     'C15': ('5.C15 / 10.5', STEP + '. Timer monitor on every step (cancel only if armed, flags == fold of events, nothing armed when disconnected, exact intervals by priority) for all keep-alive / override / Server Keep Alive / timeout values: PINGREQ send (v5.0), DISCONNECT, server receive-timer expiry (both versions), PINGRESP, close, server CONNECT (after another keep-alive); thorough: the other expiries, v3.1.1 PINGREQ, PUBREL while not connected.'),
     'C16': ('5.C16 / 10.5', 'handled-set export -> restore equality; restore_packets of one packet (QoS1 / QoS2 PUBLISH, PUBREL; v3.1.1 and v5.0) into a fresh client for every identifier: store content, in-use id, exactly the right wait set, re-registration refused. Multi-packet restores (order) exceed 28 GB and are outside the claim. The crash-point quantifier is discharged by state equality (exportable state = store + handled set); resume behaviour from a restored store is decided under C06 only for v3.1.1 PUBACK.'),
     'C17': ('5.C17 / 10.5', 'can_receive for all u8 x version x role against the MQTT table; CONNACK on an established connection is a protocol error and leaves the session untouched; thorough: process_recv_packet with a symbolic fixed-header byte for a v3.1.1 client and server (rejected => only a protocol error, state untouched; accepted => the handler of that type ran). v5.0 / undetermined-version dispatch did not fit (outside the claim).'),
